@@ -635,6 +635,7 @@ func (e *Engine) newState(h *Harness, w *worker, res *HarnessResult, q *workQueu
 }
 
 type worker struct {
+	paths    int
 	ts       *TermStore
 	solver   *Solver
 	pristine map[*ssa.Global]*Obj
@@ -703,6 +704,19 @@ func (e *Engine) RunHarness(h *Harness, tier int, jobs int, pinned map[string]In
 				end := st.runPath()
 				e.finishPath(st, end)
 				q.done()
+				w.paths++
+				// recycle the worker now and then: the term table and the solver's global definitions only grow
+				if len(w.ts.all) > 600000 || w.paths > 4000 || w.solver.dead {
+					w.solver.Close()
+					res.mu.Lock()
+					res.Stats.Sat += w.stats.Sat
+					res.Stats.Unsat += w.stats.Unsat
+					res.Stats.Unknown += w.stats.Unknown
+					res.Stats.Errors += w.stats.Errors
+					res.Stats.Time += w.stats.Time
+					res.mu.Unlock()
+					w = nil
+				}
 			}
 			if w != nil {
 				w.solver.Close()
